@@ -201,7 +201,11 @@ func (f *frame) lookupVar0(name string, b *ssa.BasicBlock, phiOverride map[*ssa.
 	}
 	for i, fv := range f.fn.FreeVars {
 		if fv.Name() == name && i < len(f.bindings) {
-			return f.bindings[i], true
+			b := f.bindings[i]
+			if b.IsPtr() && f.lookupState != nil {
+				return f.c.loadPtr(f.lookupState, b, elemType(b.T)), true
+			}
+			return b, true
 		}
 	}
 	return Val{}, false
